@@ -45,6 +45,9 @@ CLAIMS = {
  "C17": ("TSGU!Match checked against a bit-level restatement for all 4 x 65 536 pairs (MC_Caps); real handshakes for every server setting x client value "
          "(quick: structured sample, thorough: all 65 536) with varied version bytes; G_C17_* evaluated by TLC per handshake.", "DESIGN.md §4 C17",
          "TLC exhaustive check of Match; handshakes replayed on the real gateway; TLC trace validation"),
+ "C20": ("KdcProxy.tla (validation, fan-out, first reply, deadline; liveness: every request is answered) model-checked; requests enumerated by TLC sent to the real kdcproxy.Handler behind fake TCP+UDP KDCs "
+         "(reply/keep-open/partial/close/silent/refuse) with payloads of 0 B..128 KiB; status, latency, bytes seen by the KDCs and the returned KDC-PROXY-MESSAGE judged by TLC.", "DESIGN.md §4 C20",
+         "TLC design check incl. liveness; enumerated requests on the real handler; TLC trace validation"),
 }
 
 def main():
